@@ -210,6 +210,49 @@ def check(an, rep, tier):
     _callers = {f.qualname for f in prog.all_functions()
                 if f.module.name in ('transformation', 'act_many', 'svd')}
     _RP.check_param_forwarding(prog, rep, callers=_callers)
+    # --- F-split: the accuracy is divided by sqrt(d - 1), the number of
+    # unfoldings of a d-dimensional train (the statement's per-unfolding
+    # budget e * ||Y|| / sqrt(d - 1)).  Three-valued: the radicand inlines to
+    # ``len(<tensor>) - 1`` = ok; to ``len(<tensor>)`` with another (or no)
+    # integer offset = violation (budget of another number of unfoldings:
+    # ranks differ from the documented ones in a band of e above every
+    # rank-change threshold); other spellings = unknown, no floor.
+    from .. import roles as _rolesF
+    _ft = prog.func('transformation.truncate')
+
+    def _len_off(x):
+        """(is a len() of something, integer offset) or None"""
+        if isinstance(x, ast.Call) and isinstance(x.func, ast.Name) and \
+                x.func.id == 'len' and len(x.args) == 1:
+            return 0
+        if isinstance(x, ast.BinOp) and isinstance(x.op, (ast.Sub, ast.Add)) \
+                and isinstance(x.right, ast.Constant) and \
+                isinstance(x.right.value, int) and \
+                not isinstance(x.right.value, bool):
+            b = _len_off(x.left)
+            if b is not None:
+                return b + (x.right.value if isinstance(x.op, ast.Add)
+                            else -x.right.value)
+        return None
+    if _ft is not None:
+        for _as in ast.walk(_ft.node):
+            if not isinstance(_as, ast.Assign):
+                continue
+            for _b in ast.walk(_as.value):
+                if not (isinstance(_b, ast.BinOp) and
+                        isinstance(_b.op, ast.Div) and
+                        isinstance(_b.right, ast.Call) and
+                        (prog.dotted(_b.right.func) or '').endswith('sqrt')
+                        and len(_b.right.args) == 1):
+                    continue
+                _off = _len_off(_rolesF.inline(_ft.node, _b.right.args[0]))
+                _st3 = 'unknown' if _off is None else (
+                    'ok' if _off == -1 else 'violation')
+                rep.add('F-split', 'transformation.truncate', 'accuracy '
+                        'divided by sqrt(d - 1), the number of unfoldings',
+                        _st3, '' if _st3 == 'ok' else 'radicand "%s" is not '
+                        'len(tensor) - 1' % ast.unparse(_b.right.args[0]),
+                        line=_b.lineno, file=_ft.module.path)
     rep.floor('O-sweep', 4, 'sweep typestates')
     rep.floor('O-gram', 2, 'selectors')
     rep.floor('U-cmp', 1, 'threshold comparisons (the two factorisations may share one)')
